@@ -219,3 +219,36 @@ func Harness_C06_create_group() {
 	}
 	verifReach("end")
 }
+
+// Unload and reload (the real initTopicGrp/loadSubscribers) with arbitrary stored modes: the reloaded topic's
+// owner is the one subscriber whose EFFECTIVE mode (want & given) has O - a member who was merely offered
+// ownership (O in given, not yet in want) or merely asks for it (O in want only) is not the owner, whichever
+// order the store returns the rows in.
+func Harness_C06_reload_keeps_the_owner() {
+	fx := verifNewTopic(verifKindGrp, 3)
+	name := fx.topic.name
+	ownerIdx := verifChoose("ownerIndex", 3)
+	owner := fx.uids[ownerIdx]
+	fx.store.topics[name].Owner = owner.String()
+	for i, u := range fx.uids {
+		sub := fx.store.subs[verifSubKey(name, u)]
+		if i == ownerIdx {
+			sub.ModeWant, sub.ModeGiven = types.ModeCFull, types.ModeCFull
+			continue
+		}
+		sub.ModeWant, sub.ModeGiven = verifMode("want"), verifMode("given")
+		verifAssume(!(sub.ModeWant & sub.ModeGiven).IsOwner()) // exactly one effective owner in the store
+	}
+	t2 := &Topic{name: name, xoriginal: name, perUser: make(map[types.Uid]perUserData), sessions: make(map[*Session]perSessionData)}
+	err := initTopicGrp(t2)
+	verifAssert(err == nil, "reload-works")
+	verifAssert(t2.owner == owner, "reloaded-topic-has-the-same-owner")
+	n := 0
+	for _, pud := range t2.perUser {
+		if (pud.modeWant & pud.modeGiven).IsOwner() {
+			n++
+		}
+	}
+	verifAssert(n == 1, "reloaded-topic-has-exactly-one-owner")
+	verifReach("end")
+}
